@@ -264,47 +264,53 @@ def dec(line):
     return "".join(chr(int(x)) for x in line.split(" ")) if line else ""
 
 
+def _run_one(exe, args, chunk, timeout):
+    """run one process over a chunk; if it dies on a case (abort, stack overflow) mark that case CRASH and carry on
+    with the rest in a fresh process (at most 25 restarts)"""
+    out = []
+    start = 0
+    restarts = 0
+    while start < len(chunk):
+        part = chunk[start:]
+        data = ("\n".join(part) + "\n").encode("utf-8")
+        p = subprocess.Popen([exe] + list(args), stdin=subprocess.PIPE, stdout=subprocess.PIPE,
+                             stderr=subprocess.DEVNULL, env=ENV)
+        try:
+            o, _ = p.communicate(data, timeout=timeout)
+        except subprocess.TimeoutExpired:
+            p.kill()
+            p.communicate()
+            return out + ["|TIMEOUT"] * len(part)
+        o = o.decode("utf-8", "replace").split("\n")
+        if o and o[-1] == "":
+            o = o[:-1]
+        if len(o) >= len(part):
+            return out + o[:len(part)]
+        out += o + ["|CRASH rc=%s" % p.returncode]
+        start += len(o) + 1
+        restarts += 1
+        if restarts > 25:
+            return out + ["|NOTRUN"] * (len(chunk) - start)
+    return out
+
+
 def _run_shards(exe, args, lines, timeout):
     n = len(lines)
     if n == 0:
         return []
     k = max(1, min(NPROC, n // 200))
     size = (n + k - 1) // k
-    procs = []
-    for i in range(k):
-        chunk = lines[i * size:(i + 1) * size]
-        data = ("\n".join(chunk) + "\n").encode("utf-8")
-        p = subprocess.Popen([exe] + list(args), stdin=subprocess.PIPE, stdout=subprocess.PIPE,
-                             stderr=subprocess.DEVNULL, env=ENV)
-        procs.append((p, data, len(chunk)))
     import threading
     outs = [None] * k
 
     def work(i):
-        p, data, _ = procs[i]
-        try:
-            o, _ = p.communicate(data, timeout=timeout)
-            outs[i] = o.decode("utf-8", "replace").split("\n")
-        except subprocess.TimeoutExpired:
-            p.kill()
-            outs[i] = None
+        outs[i] = _run_one(exe, args, lines[i * size:(i + 1) * size], timeout)
     ths = [threading.Thread(target=work, args=(i,)) for i in range(k)]
     [t.start() for t in ths]
     [t.join() for t in ths]
     res = []
     for i in range(k):
-        cnt = procs[i][2]
-        o = outs[i]
-        if o is None:
-            res += ["|TIMEOUT"] * cnt
-            continue
-        if o and o[-1] == "":
-            o = o[:-1]
-        rc = procs[i][0].returncode
-        if len(o) < cnt:
-            # the process died (abort / stack overflow) on case number len(o) of this chunk
-            o = o + ["|CRASH rc=%s" % rc] + ["|NOTRUN"] * (cnt - len(o) - 1)
-        res += o[:cnt]
+        res += outs[i]
     return res
 
 
